@@ -3,6 +3,7 @@
 from __future__ import annotations
 
 import json
+import os
 import random
 import re
 from datetime import datetime as dt, timedelta as td
@@ -263,6 +264,33 @@ def run(chk: Check) -> None:
     if arrs:
         chk.sample({"frame": arrs[0], "decoded": first[arrs[0]][:300]})
     D.run()
+    # where the history-free model and the implementation part, the search for a failing input starts: the same frame decoded
+    # by a fresh process (no packet before it) - if that differs from what this process made of it, the decode depends on what
+    # was decoded before, and the frame (after this run's frames) is the failing input
+    import subprocess
+    import sys as _sys
+
+    from ..common import REPO, unesc
+
+    tried = 0
+    for dv in list(chk.corr_divergences):
+        if dv.get("op") != "decode" or tried >= 6:
+            continue
+        fr = unesc(str(dv["input"]).split("\t")[1]) if "\t" in str(dv["input"]) else None
+        if fr is None or fr not in first:
+            continue
+        tried += 1
+        code = ("import sys; sys.path.insert(0, '/verif'); from harness import common; common.import_repo(); from harness import rt; rt.quiet();"
+                "from ramses_tx.packet import Packet; from ramses_tx.message import Message; from harness.props.c05 import canon, strip_clock, STAMP;"
+                "p = Packet(STAMP, '... ' + sys.argv[1]); m = Message(p); print('ok\\t' + canon(strip_clock(p.code, m.payload, p.dtm)[0]))")
+        try:
+            r = subprocess.run([_sys.executable, "-c", code, fr], capture_output=True, text=True, timeout=60, env={**os.environ, "VERIF_REPO": str(REPO)})
+        except Exception:  # noqa: BLE001
+            continue
+        alone = r.stdout.strip().splitlines()[-1] if r.returncode == 0 and r.stdout.strip() else None
+        if alone is not None and alone.startswith("ok\t") and alone != first[fr]:
+            chk.violation(f"determinism.fresh_process:{fr[37:41]}", f"{fr!r} decodes to {alone[:200]!r} in a fresh process and to {first[fr][:200]!r} after the "
+                          f"other frames of this run", {"frame": fr, "phase": "fresh-process", "order_seed": chk.seed})
 
 
 def _tuples_to_lists(v):
